@@ -11,8 +11,9 @@ CHECK = Check(
         "label-incompatible; distinct by descriptor hash."
     ),
     assumptions=[
-        "candidate set and pair scores are the library's own MatchingMethod values (validated independently by C06); "
-        "label compatibility is re-implemented from the statement",
+        "candidate set and ranking use the library's own MatchingMethod values, which are themselves compared with the "
+        "reference geometry for every candidate pair (first 60 of a case; 1e-6 tolerance; the C06 known finding D19 is "
+        "skipped as boundary); label compatibility is re-implemented from the statement",
         "exact greedy equality is asserted only when all candidate scores differ pairwise by more than 1e-9",
     ],
     design_ref="§6 C02",
@@ -51,6 +52,8 @@ def _check(ctx, d):
         return
     maximize = d["mode"] in ("IOU2D", "IOU3D")
     scores = M.lib_score_matrix(ctx, d, est, gt, tr)
+    if not M.check_scores_against_reference(ctx, d, scores):
+        return
     cands, compat = {}, {}
     for (i, j), s in scores.items():
         r = M.radius_for(d, d["gt"][j])
